@@ -3,6 +3,8 @@ import FcpptProofs.C03.NextArg
 import FcpptProofs.C03.Construct
 import FcpptProofs.C03.Term
 import FcpptProofs.C03.Help
+import FcpptProofs.C03.Fuel
+import FcpptProofs.C03.Labels
 /-!
 # C03 — property theorems (see notes/C03.md for the clause-by-clause coverage)
 
@@ -226,6 +228,17 @@ theorem help_only_alone (f : Nat) (hlg : String) (p : OP) (args : List String) :
     (∃ x, parseHelp (f + 2) none hlg p args = .ok x ∧ (match x with | .help => True | .result .. => False)) ↔
       args = [flagName hlg false] := parseHelp_help_iff f hlg p args
 
+/-- **`parse_help`, any help switch** (with or without a short name): the answer is the help text iff the argument
+vector is exactly the switch — `[--<long>]` or `[-<short>]`.  In particular `--help -h`, `-h x` or `x --help` never
+give the help text. -/
+theorem help_only_alone_any (f : Nat) (hsh : Option String) (hlg : String) (p : OP) (args : List String) :
+    (∃ x, parseHelp (f + 2) hsh hlg p args = .ok x ∧ x.isHelp = true) ↔
+      args = [flagName hlg false] ∨ ∃ s, hsh = some s ∧ args = [flagName s true] :=
+  parseHelp_help_iff_any f hsh hlg p args
+
+example : parseHelp 9 (some "h") "help" (.arg "a" .str) ["-h"] = .ok .help := by rfl
+example : parseHelp 9 (some "h") "help" (.arg "a" .str) ["-h", "--help"] = .error .error := by rfl
+
 /-! ## definitions -/
 
 /-- **the constructors accept exactly the well-formed definitions** (short ≠ long, active ≠ inactive for every
@@ -262,6 +275,52 @@ theorem consuming_shrinks {f : Nat} {p : OP} {st : List Arg} {c : Ctx} {st' : Li
 /-- the open known finding (`many` around a parser that succeeds without consuming): no fuel is enough -/
 theorem many_diverges_example (f : Nat) : parse f (.many (OP.switch "a" none "f")) [] [] = .error .diverge :=
   many_switch_diverges f
+
+/-! ## the fuel is only a termination device -/
+
+/-- **fuel monotonicity**: a result other than `diverge` is the result for every larger fuel -/
+theorem parse_fuel_monotone {f g : Nat} {p : OP} {st : List Arg} {c : Ctx} (hfg : f ≤ g)
+    (h : parse f p st c ≠ .error .diverge) : parse g p st c = parse f p st c := parse_fuel_le hfg h
+
+/-- two fuels that are both enough give the same result: the model defines one result per (parser, state, context) -/
+theorem parse_fuel_irrelevant {f g : Nat} {p : OP} {st : List Arg} {c : Ctx}
+    (hf : parse f p st c ≠ .error .diverge) (hg : parse g p st c ≠ .error .diverge) : parse f p st c = parse g p st c := by
+  rcases Nat.le_total f g with h | h
+  · exact (parse_fuel_le h hf).symm
+  · exact parse_fuel_le h hg
+
+/-- the same for `fcppt::options::parse` -/
+theorem parseTop_fuel_monotone {f g : Nat} {p : OP} {args : List String} (hfg : f ≤ g)
+    (h : parseTop f p args ≠ .error .diverge) : parseTop g p args = parseTop f p args := by
+  unfold parseTop parseToEmpty at h ⊢
+  have hp : parse f p (index args) p.optionNames ≠ .error .diverge := by
+    intro hd; rw [hd] at h; exact h rfl
+  rw [parse_fuel_le hfg hp]
+
+/-- what the driver computes with its fuel is the result for every larger fuel (shapes without a bad `many`) -/
+theorem driver_fuel_is_enough {p : OP} {args : List String} (hw : p.wfMany = true) {g : Nat}
+    (hg : fuelFor p args.length ≤ g) : parseTop g p args = parseTop (fuelFor p args.length) p args :=
+  parseTop_fuel_monotone hg (parseTop_terminates hw)
+
+/-! ## records -/
+
+/-- **the record of a successful parse has exactly the labels of the parser's result type, in order**
+(`OP.labels` = labels of `result_of<Parser>`): no field is lost or doubled by `many`'s zipping, `optional`'s mapping,
+the concatenation of a product -/
+theorem parse_result_labels {f : Nat} {p : OP} {st : List Arg} {c : Ctx} {st' : List Arg} {r : Rec} {lg : Log}
+    (h : parse f p st c = .ok (st', r, lg)) : r.map Prod.fst = p.labels := parse_labels f p st c h
+
+theorem parseTop_result_labels {f : Nat} {p : OP} {args : List String} {r : Rec} {lg : Log}
+    (h : parseTop f p args = .ok (r, lg)) : r.map Prod.fst = p.labels := by
+  unfold parseTop parseToEmpty at h
+  split at h
+  · cases h
+  · cases h
+  · rename_i st' r' lg' hp
+    split at h
+    · injection h with h; injection h with h1 h2; subst h1
+      exact parse_labels _ _ _ _ hp
+    · cases h
 
 /-! ## non-vacuity -/
 
